@@ -214,6 +214,8 @@ class ExprMixin:
 
     def class_attr_value(self, st, ci, name, node=None):
         """Value of class-level attribute `name` looked up through ci's MRO (as accessed on the class)."""
+        if name == '_auto_persist' and any(c.qualname == 'plumpy.persistence.Savable' for c in ci.mro):
+            return self.auto_persist_set(st, ci, node)
         f = ci.lookup(name)
         owner, expr = ci.lookup_class_attr(name)
         if f is not None and (owner is None or ci.mro.index(f.cls) <= ci.mro.index(owner)):
@@ -236,6 +238,42 @@ class ExprMixin:
         if name == '__class__':
             return ClassV(self.cls('type'))
         return None
+
+    def auto_persist_set(self, st, ci, node=None):
+        """Savable._auto_persist of a class of the class table, derived mechanically from the source on every run: the
+        names given to the `auto_persist(...)` class decorators along the MRO (the decorator copies the inherited set and adds
+        its names -- its own behaviour is checked by the bounded stand-in `auto_persist_member_sets`).  Classes that declare
+        members in another way (a direct `_auto_persist = ...` or `cls.auto_persist(...)` in the class body) are refused."""
+        names = []
+        seen_dec = False
+        for c in ci.mro:
+            if c.external:
+                continue
+            if c.qualname != 'plumpy.persistence.Savable' and '_auto_persist' in c.class_attrs:
+                raise Unsupported(f'{c.qualname} assigns _auto_persist directly', node)
+            for d in c.decorators:
+                if isinstance(d, ast.Call) and ast.unparse(d.func).endswith('auto_persist'):
+                    seen_dec = True
+                    for a in d.args:
+                        if not (isinstance(a, ast.Constant) and isinstance(a.value, str)):
+                            raise Unsupported('auto_persist(...) with a non-literal member name', node)
+                        if a.value not in names:
+                            names.append(a.value)
+        self.assumptions_used.add('Savable._auto_persist of a class is the set of names given to its auto_persist(...) decorators along '
+                                  'the MRO (derived from the source; the decorator itself is covered by a bounded stand-in)')
+        if not seen_dec:
+            return self.py_none()
+        setnode = ast.Set(elts=[ast.Constant(value=n) for n in sorted(names)])
+        ast.fix_missing_locations(setnode)
+        outs = self.ev(st, setnode)
+        o = outs[0]
+        if o.st is not st:
+            for f_ in ('H', 'DH', 'DV', 'DL', 'LS', 'CL', 'A', 'pc', 'objs', 'keys', 'ghost'):
+                setattr(st, f_, getattr(o.st, f_))
+        if st.ghost.get('OWN') is not None:
+            # A-PRIV: nobody but the class machinery writes a class's member set
+            st.ghost['OWN'] = z3.Store(st.ghost['OWN'], r_of(o.val.term), TRUE)
+        return o.val
 
     def eval_class_const(self, st, owner, name, expr):
         fr = Frame(None, None, owner, None, owner.module)
@@ -260,6 +298,8 @@ class ExprMixin:
             return self.ok(st, self.external_name(base.name + '.' + name))
         if isinstance(base, ClassV):
             v = self.class_attr_value(st, base.ci, name, node)
+            if v is None and name == '__new__' and not base.ci.external:
+                return self.ok(st, BuiltinV('object.__new__'))
             if v is None:
                 if base.ci.external:
                     return self.ok(st, BuiltinV(base.ci.qualname + '.' + name))
@@ -385,6 +425,8 @@ class ExprMixin:
                 if c0 is not None and c0.opts.get('dispatch') == 'static':
                     self.assumptions_used.add(f'behavioural subtyping: every override of {f0.qualname} obeys its contract')
                     return outs + self.ok(st, BoundV(FuncV(f0), v))
+        if name == __import__('os').environ.get('PYVC_DBG_ATTR'):
+            print('DBG attr', name, v, 'cls', v.cls, 'exact', v.exact, 'kind', v.kind)
         if name == 'recreate_from' and __import__('os').environ.get('PYVC_DBG_FOREIGN'):
             print('DBG foreign', v, 'cls', v.cls, 'cfg', self.config.get('user_results_foreign'),
                   'ent', self.entails(st, z3.Select(st.CL, r) >= I(self.index.first_free_id), 3000),
@@ -497,6 +539,11 @@ class ExprMixin:
         if kind == 'enumattr':
             raise Unsupported(f'enum attribute {name}', node)
         if kind == 'classconst':
+            if name == '_auto_persist':
+                if v.cls is None or not v.exact:
+                    raise Unsupported('self._auto_persist on a receiver whose class is not known exactly', node)
+                st = st.copy()
+                return self.ok(st, self.class_attr_value(st, v.cls, name, node))
             return self.ok(st, self.class_attr_value(st, res[1], name, node))
         if kind in ('heap', 'heapdef'):
             if name == '__class__':
@@ -1164,7 +1211,7 @@ class ExprMixin:
         cache[key] = res
         return res
 
-    def probe_instance(self, st, v, name, timeout_ms=800):
+    def probe_instance(self, st, v, name, timeout_ms=int(__import__("os").environ.get("PYVC_PROBE_MS", "800"))):
         """an untyped receiver of method `name`: if the path condition (class invariants included) entails that it is an
         instance of a repository class that introduces `name`, use that class as the static type"""
         roots = []
